@@ -27,6 +27,8 @@ pub struct Diagnostic {
     /// Text of label messages, in rendering order.
     pub labels: Vec<String>,
     pub notes: Vec<String>,
+    /// Line numbers of the source lines shown in the snippet(s) of this diagnostic.
+    pub snippet_lines: Vec<usize>,
 }
 
 impl Diagnostic {
@@ -131,6 +133,11 @@ pub fn parse_stdout(stdout: &str) -> (Vec<Diagnostic>, Vec<String>, Vec<(String,
         }
         let Some(d) = cur.as_mut() else { continue };
         let trimmed = line.trim_start();
+        if trimmed.contains('│') || trimmed.contains('╭') || trimmed.contains('╰') {
+            if let Some(n) = trimmed.split(|c: char| !c.is_ascii_digit()).next().and_then(|t| t.parse::<usize>().ok()) {
+                d.snippet_lines.push(n);
+            }
+        }
         if let Some(loc) = trimmed.strip_prefix("┌─ ") {
             // path:line:col — the path may contain ':'.
             let mut parts = loc.rsplitn(3, ':');
